@@ -291,6 +291,35 @@ def _shard(item):
                     keep.append(r)
                     frontier.append(r)
         part.count("states", len(frontier))
+        # joined Booleans (Or / And / Boolean If over comparison atoms) under Boolean ==, != : the three-valued logic of
+        # the backend must treat every undetermined operand as undetermined, however it was produced
+        k1 = claripy.BVV(1 & mask(w), w)
+        gy = sorted(space._c24_gamma[1])
+        atoms = [claripy.ULT(ax, k1), claripy.ULT(ay, k1), ax == ay, claripy.UGT(ax, k1)]
+        if gy:
+            atoms += [claripy.UGE(ay, gy[0]), claripy.ULT(ay, gy[0])]
+        joined = []
+        for p_, q_ in itertools.product(atoms, repeat=2):
+            if p_ is q_:
+                continue
+            joined += [claripy.Or(p_, q_), claripy.And(p_, q_)]
+        for p_, q_, r_ in itertools.product(atoms[:4], repeat=3):
+            if p_ is not q_ and q_ is not r_:
+                try:
+                    joined.append(claripy.If(p_, q_, r_))
+                except ClaripyError:
+                    pass
+        pool = atoms + joined[:: max(1, len(joined) // 24)]
+        for p_, q_ in itertools.product(pool, repeat=2):
+            for nm, e in (("==", p_ == q_), ("!=", p_ != q_)):
+                if id(e) in seen:
+                    continue
+                seen.add(id(e))
+                keep.append(e)
+                part.count("transitions")
+                part.count("vsa_conversions")
+                part.count("joined_boolean_cases")
+                judge(space, e, part, f"w={w}|{space._c24_label}|booljoin|{show(e)}", "convert:booljoin", {"kind": "e1", "w": w, "si": space._c24_spec, "key": "booljoin"})
         if depth >= 2:
             n2 = 0
             for s in frontier:
